@@ -197,7 +197,8 @@ def pool_case(draw, names, allow_feat=True, max_n=None, force_cand=None,
     if vary_model and ent["model"] and ent["model"][0] == "clf" and \
             ent["model"][1] == "pwc" and ent["cls"] in poolreg.ANY_CLF:
         opts["model_key"] = draw(st.sampled_from(
-            ["pwc", "pwc", "gnb", "lr", "tree_clf", "pwc_default"]))
+            ["pwc", "pwc", "gnb", "lr", "tree_clf", "pwc_default",
+             "pwc_prior"]))
     excluded = None
     eff = opts.get("model_key") or (
         ent["model"][1] if ent["model"] and ent["model"][0] == "clf"
